@@ -1640,9 +1640,10 @@ impl Parser {
 
     fn parse_method_call_or_struct_access(&mut self, recv: UntypedExpr) -> Result<UntypedExpr, ()> {
         let (field, call_start) = self.expect_identifier()?;
+        let meta = join_meta(recv.meta, call_start);
         Ok(Expr::untyped(
             ExprEnum::StructAccess(Box::new(recv), field),
-            call_start,
+            meta,
         ))
     }
 
